@@ -74,7 +74,7 @@ def run(ctx, rep):
         n += 1
         rep.check("C05.gate", "%s=>valid(crc::Crc8)" % path, fact_match(s, "valid", "crc::Crc8$"), loc_of(b),
                   "frame success implies header CRC-8 valid", "frame returned without the header CRC-8 gate; facts: %s" % fact_str(s))
-    rep.floor("C05.gate", "checksum gates", n, 7)
+    rep.floor("C05.gate", "checksum gates", n, 4)
 
     # ---- C05.gate: STREAMINFO consistency -------------------------------------
     bs = impl_method(F, rep, "C05.gate", r"FromBitStreamWith", r"^stream::FrameHeader$", "from_reader")
